@@ -329,8 +329,6 @@ func runSim(s *spec, tier string, seed uint64, scratch string) int {
 		wg.Add(1)
 		go func(w int, wdir string) {
 			defer wg.Done()
-			cmd := exec.Command(bin, "-test.run", "^TestVerifSim$", "-test.cpu", "1", "-test.timeout", "0", "-test.count", "1")
-			cmd.Dir = filepath.Join(repo, s.Pkg)
 			env := goEnv(
 				"TMPDIR="+filepath.Join(wdir, "tmp"),
 				"VERIF_PROP="+s.Prop, "VERIF_TIER="+tier, fmt.Sprintf("VERIF_SEED=%d", seed),
@@ -343,18 +341,31 @@ func runSim(s *spec, tier string, seed uint64, scratch string) int {
 			if os.Getenv("VERIF_MAXRUNS") == "" {
 				// keep whatever the caller set
 			}
-			cmd.Env = env
-			var buf bytes.Buffer
-			cmd.Stdout = &buf
-			cmd.Stderr = &buf
-			err := cmd.Run()
-			outs[w] = buf.String()
-			if err != nil {
-				if ee, ok := err.(*exec.ExitError); ok {
-					codes[w] = ee.ExitCode()
-				} else {
-					codes[w] = 2
+			// a worker that cannot even be started (fork/exec failing on a very busy
+			// machine: EAGAIN, ETXTBSY) is started again a few times
+			for attempt := 0; ; attempt++ {
+				cmd := exec.Command(bin, "-test.run", "^TestVerifSim$", "-test.cpu", "1", "-test.timeout", "0", "-test.count", "1")
+				cmd.Dir = filepath.Join(repo, s.Pkg)
+				cmd.Env = env
+				var buf bytes.Buffer
+				cmd.Stdout = &buf
+				cmd.Stderr = &buf
+				err := cmd.Run()
+				outs[w] = buf.String()
+				codes[w] = 0
+				if err != nil {
+					if ee, ok := err.(*exec.ExitError); ok {
+						codes[w] = ee.ExitCode()
+					} else {
+						codes[w] = 2
+						outs[w] += fmt.Sprintf("\ncheck: cannot run the worker: %v\n", err)
+						if attempt < 5 {
+							time.Sleep(time.Duration(attempt+1) * 2 * time.Second)
+							continue
+						}
+					}
 				}
+				break
 			}
 		}(w, wdir)
 	}
